@@ -247,10 +247,8 @@ func runC18(c *Ctx) {
 					for _, te := range trOpts {
 						for _, tk := range trOpts {
 							tr := c18Tr{}
+							// a section for the flow's own language is legal (left behind by a change of base language) and must be ignored
 							for lang, opt := range map[string]string{"fra": tf, "eng": te, "kin": tk} {
-								if lang == base {
-									continue
-								}
 								if v, ok := variant(opt, []string{"text in " + lang}); ok {
 									tr[lang] = map[string][]string{"text": v}
 								}
@@ -276,7 +274,7 @@ func runC18(c *Ctx) {
 		baseAtts := []string{"image/jpeg:http://x.com/a.jpg", "image/jpeg:http://x.com/b.jpg"}
 		tr := c18Tr{}
 		for _, lang := range []string{"eng", "fra", "kin"} {
-			if lang == base {
+			if lang == base && r.Chance(50) {
 				continue
 			}
 			props := map[string][]string{}
